@@ -99,7 +99,8 @@ theorem rgbToHsl_bounds (r g b : ℝ) (hr : 0 ≤ r) (hg : 0 ≤ g) (hb : 0 ≤ 
   have hM1 := max_le_one r g b hr1 hg1 hb1
   have hmM : (maxMinSep r g b).min ≤ (maxMinSep r g b).max := le_trans b1 b2
   unfold rgbToHsl
-  simp only [max0_of_nonneg hr, max0_of_nonneg hg, max0_of_nonneg hb, eqv_iff]
+  -- `RealScalar.invertedSum_eq`: the code's denominator `(1 − max) + (1 − min)` is `2 − (max + min)` at ℝ
+  simp only [max0_of_nonneg hr, max0_of_nonneg hg, max0_of_nonneg hb, eqv_iff, RealScalar.invertedSum_eq]
   set M := (maxMinSep r g b).max with hMdef
   set m := (maxMinSep r g b).min with hmdef
   have hl0 : 0 ≤ (M + m) / 2.0 := by norm_num; linarith
@@ -119,6 +120,74 @@ theorem rgbToHsl_bounds (r g b : ℝ) (hr : 0 ≤ r) (hg : 0 ≤ g) (hb : 0 ≤ 
         exact (div_le_one h2).mpr (by norm_num; linarith)
       · have h2 : (0 : ℝ) < M + m := by linarith
         exact (div_le_one h2).mpr (by linarith)
+
+/-- **the point of the repair of `Rgb → Hsl` next to white (palette 4f36dd5)**: on the unit cube, whenever the code takes the
+    `max + min > 1` branch (and `max ≠ min`), the saturation it returns is `(max − min) / ((1 − max) + (1 − min))` and that
+    denominator -- `inverted_sum`, exactly as the code associates it -- is strictly positive: the selected branch never divides by
+    zero.  At ℝ the old denominator `2 − (max + min)` has the same value (`RealScalar.invertedSum_eq`); the difference is rounding:
+    `1 − max ≥ 0` and `1 − min > 0` hold for floats too (a difference of distinct floats is never 0) and a sum of a non-negative
+    and a positive float is positive, while `max + min` rounds to exactly 2 for `max = 1`, `min = 1 − ulp`
+    (`hsl_next_to_white_f64`, `inverted_sum_next_to_white_f32` below decide that on the IEEE model). -/
+theorem rgbToHsl_inverted_sum_pos (r g b : ℝ) (hr : 0 ≤ r) (hg : 0 ≤ g) (hb : 0 ≤ b) (hr1 : r ≤ 1) (hg1 : g ≤ 1) (hb1 : b ≤ 1)
+    (hne : (maxMinSep r g b).max ≠ (maxMinSep r g b).min) (hs : 1 < (maxMinSep r g b).max + (maxMinSep r g b).min) :
+    0 < (1.0 - (maxMinSep r g b).max) + (1.0 - (maxMinSep r g b).min) ∧
+    (rgbToHsl ⟨r, g, b⟩).c1 =
+      ((maxMinSep r g b).max - (maxMinSep r g b).min) / ((1.0 - (maxMinSep r g b).max) + (1.0 - (maxMinSep r g b).min)) := by
+  obtain ⟨b1, b2, b3, b4, b5, b6⟩ := maxMin_bounds r g b
+  have hM1 := max_le_one r g b hr1 hg1 hb1
+  have hlt : (maxMinSep r g b).min < (maxMinSep r g b).max := lt_of_le_of_ne (le_trans b1 b2) (Ne.symm hne)
+  refine ⟨?_, ?_⟩
+  · have h1 : (0 : ℝ) ≤ 1.0 - (maxMinSep r g b).max := by norm_num; exact hM1
+    have h2 : (0 : ℝ) < 1.0 - (maxMinSep r g b).min := by norm_num; linarith
+    exact add_pos_of_nonneg_of_pos h1 h2
+  · unfold rgbToHsl
+    simp only [max0_of_nonneg hr, max0_of_nonneg hg, max0_of_nonneg hb, eqv_iff]
+    rw [if_pos hne]; simp only
+    rw [if_pos (by norm_num; exact hs)]
+
+/-- non-vacuity: `(1, 1, 0.999)`, next to white: `max = 1`, `min = 0.999`, `max ≠ min`, `max + min = 1.999 > 1` -/
+example : (0 : ℝ) ≤ 1 ∧ (0 : ℝ) ≤ 0.999 ∧ (1 : ℝ) ≤ 1 ∧ (0.999 : ℝ) ≤ 1 ∧
+    (maxMinSep (1 : ℝ) 1 0.999).max ≠ (maxMinSep (1 : ℝ) 1 0.999).min ∧
+    1 < (maxMinSep (1 : ℝ) 1 0.999).max + (maxMinSep (1 : ℝ) 1 0.999).min := by
+  have e : maxMinSep (1 : ℝ) 1 0.999 = ⟨1, 0.999, 0.999 - 1, 2.0⟩ := by
+    rcases cases_order (1 : ℝ) 1 0.999 with ⟨h, _⟩ | ⟨h, _⟩ | ⟨h, _⟩ | ⟨_, h, _⟩ | ⟨_, _, _, hp⟩ | ⟨_, _, h, _⟩
+    · norm_num at h
+    · norm_num at h
+    · norm_num at h
+    · norm_num at h
+    · exact hp
+    · norm_num at h
+  rw [e]; norm_num
+
+/-- the six colours with two components `a` and one `b`, or one `a` and two `b` (`a = 1`: the neighbours of white) -/
+def cornerAdjacent {α : Type} (a b : α) : List (V3 α) := [⟨a, a, b⟩, ⟨a, b, a⟩, ⟨b, a, a⟩, ⟨a, b, b⟩, ⟨b, a, b⟩, ⟨b, b, a⟩]
+
+/-- ℝ-free companion of `rgbToHsl_inverted_sum_pos`, decided by the kernel on Lean's IEEE `Float` by running the *model itself*
+    (`rgbToHsl`, `rgbToHslMask` at `f64`): for `max` one of the 3 doubles ending at 1 (`1 − i·2⁻⁵³`) and `min` one of the 4
+    doubles just below `max`, in all six corner-adjacent arrangements, the repaired denominator is strictly positive and both
+    branches return a saturation in `(0, 1]`; whereas the old `2 − (max + min)` is exactly `+0` for `max = 1`, `min = 1 − 2⁻⁵³`
+    (last clause: the division then gave `+inf`, finding `hsl-white-inf-C15`). -/
+theorem hsl_next_to_white_f64 :
+    (∀ i : Fin 3, ∀ j : Fin 4,
+      let mx := Float.ofBits (0x3ff0000000000000 - i.val.toUInt64)
+      let mn := Float.ofBits (0x3ff0000000000000 - i.val.toUInt64 - 1 - j.val.toUInt64)
+      (0.0 : Float) < (1.0 - mx) + (1.0 - mn) ∧
+      ∀ c ∈ cornerAdjacent mx mn,
+        (0.0 : Float) < (rgbToHsl c).c1 ∧ (rgbToHsl c).c1 ≤ 1.0 ∧ (0.0 : Float) < (rgbToHslMask c).c1 ∧ (rgbToHslMask c).c1 ≤ 1.0) ∧
+    ((2.0 : Float) - (1.0 + Float.ofBits 0x3fefffffffffffff)).toBits = 0 := by decide +kernel
+
+/-- the same at `f32`, on the expression (`T::from_f64(1.0)` is `1.0f64 as f32`, and `Float.toFloat32` is opaque to the kernel, so
+    the model cannot be run there; `1 = 0x3f800000`, `2 = 0x40000000`): for `max` one of the 8 floats ending at 1 and `min` one
+    of the 16 floats just below `max`, the branch is the `max + min > 1` one, `(1 − max) + (1 − min) > 0` and the quotient is in
+    `(0, 1]`; the old denominator `2 − (1 + (1 − 2⁻²⁴))` is exactly `+0` (`Srgb<f32>(1, 1, 0.99999994) → Hsl(60, +inf, 1)`). -/
+theorem inverted_sum_next_to_white_f32 :
+    (∀ i : Fin 8, ∀ j : Fin 16,
+      let one := Float32.ofBits 0x3f800000
+      let mx := Float32.ofBits (0x3f800000 - i.val.toUInt32)
+      let mn := Float32.ofBits (0x3f800000 - i.val.toUInt32 - 1 - j.val.toUInt32)
+      mn < mx ∧ mx ≤ one ∧ one < mx + mn ∧ Float32.ofBits 0 < (one - mx) + (one - mn) ∧
+        Float32.ofBits 0 < (mx - mn) / ((one - mx) + (one - mn)) ∧ (mx - mn) / ((one - mx) + (one - mn)) ≤ one) ∧
+    (Float32.ofBits 0x40000000 - (Float32.ofBits 0x3f800000 + Float32.ofBits 0x3f7fffff)).toBits = 0 := by decide +kernel
 
 /-- **converse, HWB: `rgb ∈ [0,1]³` ⇒ `w, b ≥ 0` and `w + b ≤ 1`** (through `Hwb ← Hsv ← Rgb`) -/
 theorem rgbToHwb_bounds (r g b : ℝ) (hr : 0 ≤ r) (hg : 0 ≤ g) (hb : 0 ≤ b) (hr1 : r ≤ 1) (hg1 : g ≤ 1) (hb1 : b ≤ 1) :
